@@ -9,7 +9,7 @@ TRUST = ("Sampling, not proof. Trusted base: the harness itself (SimDisk == Curs
 
 CHECKS = {
     "C01": dict(level="exploration", ref="DESIGN.md §4 C01",
-        text="Seeded search over writer programs x sink short-write schedules x read-back short-read schedules x caller buffer sizes; each program is executed twice on simulated disks (finish / drop), the images must be byte-identical and the crate's seekable reader must agree field-by-field and byte-by-byte with a reference model. Exploration is the right level: the space (programs x schedules) is unbounded and the property is a round trip through real codecs.",
+        text="Seeded search over writer programs x sink short-write schedules x read-back short-read schedules x caller buffer sizes; each program is executed twice on simulated disks (finish / drop), the images must be byte-identical and the crate's seekable reader must agree field-by-field and byte-by-byte with a reference model. Exploration is the right level: the space (programs x schedules) is unbounded and the property is a round trip through real codecs. One run in six steers a structure of the finished archive (end record, directory start, last local header / data start) onto a block boundary m*2^j-d by pre-positioning the sink after a first execution.",
         note=TRUST + "Names/comments embedding record signatures are skipped by a computed ambiguity predicate (R2).",
         tech="deterministic simulation: seeded program + I/O-schedule search against a reference model (finish vs drop crash point)"),
     "C02": dict(level="exploration", ref="DESIGN.md §4 C02",
@@ -21,7 +21,7 @@ CHECKS = {
         note=TRUST + "Layouts that are ambiguous for any backward-searching reader (signature bytes at the probe positions) are skipped and counted.",
         tech="deterministic simulation: seeded foreign-archive layouts + short-read schedules against the builder's record"),
     "C04": dict(level="fault_enumeration", ref="DESIGN.md §4 C04",
-        text="Storage damage confined to an entry's data extent or declared CRC, then the entry is read to EOF under short-read schedules with drawn caller buffers through both readers: for small seed images EVERY single-bit flip of every data byte and of the 32 CRC bits is enumerated; larger images get sampled multi-site damage, truncated payloads, swapped payloads and lost CRC back-patches. Oracle: a read that completes returned bytes whose CRC equals the declared one (AE-2 exempt).",
+        text="Storage damage confined to an entry's data extent or declared CRC, then the entry is read to EOF under short-read schedules with drawn caller buffers through both readers: for small seed images EVERY single-bit flip of every data byte and of the 32 CRC bits is enumerated; larger images get sampled multi-site damage, truncated payloads, swapped payloads and lost CRC back-patches. Oracle: a read that completes returned bytes whose CRC equals the declared one (AE-2 exempt). For ZipCrypto targets a history on ONE archive handle (right password to the end, then wrong passwords that pass the one-byte check) is part of every case: each completed read owes the checksum.",
         note=TRUST + "The CRC of the returned bytes is recomputed by the harness's own CRC-32.",
         tech="deterministic simulation: enumerated bit-rot faults on simulated storage, read under seeded short-read schedules"),
     "C05": dict(level="exploration", ref="DESIGN.md §4 C05",
@@ -65,7 +65,7 @@ CHECKS = {
         note=TRUST + "A wrong password that passes the 1-byte check is legal (R5).",
         tech="deterministic simulation: seeded password/content/check-byte search with an independent cipher as oracle, short-read schedules"),
     "C16": dict(level="fault_enumeration", ref="DESIGN.md §4 C16",
-        text="AES entries from an independent encryptor ((AE-1|AE-2) x strength x inner method x boundary content lengths): right / no / wrong password on the intact image, and for small entries EVERY single-bit flip of salt, verifier, ciphertext and MAC (sampled for large ones), plus wrong declared CRC under AE-1 vs AE-2, all read under short-read schedules with drawn caller buffers: tampering of a non-empty entry must surface as an error no later than EOF.",
+        text="AES entries from an independent encryptor ((AE-1|AE-2) x strength x inner method x boundary content lengths): right / no / wrong password on the intact image, and for small entries EVERY single-bit flip of salt, verifier, ciphertext and MAC (sampled for large ones), plus wrong declared CRC under AE-1 vs AE-2, all read under short-read schedules with drawn caller buffers: tampering of a non-empty entry must surface as an error no later than EOF. AES entries also carry ZIP64 escapes (record before or after the AES record) and the extra records real archivers write.",
         note=TRUST + "The independent AES composition is validated at start-up against the third-party fixture in /repo/tests/data.",
         tech="deterministic simulation: enumerated bit-flip faults on simulated storage + seeded short-read schedules"),
     "C17": dict(level="exploration", ref="DESIGN.md §4 C17",
@@ -73,7 +73,7 @@ CHECKS = {
         note=TRUST + "Alignments are drawn from boundary values, powers of two and uniformly from 0..65535.",
         tech="deterministic simulation: seeded programs with alignment arithmetic checked on the image by the independent parser"),
     "C20": dict(level="exploration", ref="DESIGN.md §4 C20",
-        text="Clones of one archive driven by per-handle scripts: (A) a seeded scheduler releases one script step at a time across handle threads (baton passing), (B) shuttle's seeded random/PCT schedulers interleave handle threads at every source I/O call and at the shared relaxed atomic; each handle's observation log must equal its solo run; in a third of the cases some handles' own readers fail (seeded I/O faults per clone) and every OTHER handle must be unaffected. (C) a compile-time probe asserts Send + Sync.",
+        text="Clones of one archive driven by per-handle scripts: (A) a seeded scheduler releases one script step at a time across handle threads (baton passing), (B) shuttle's seeded random/PCT schedulers interleave handle threads at every source I/O call and at the shared relaxed atomic; each handle's observation log must equal its solo run; in a third of the cases some handles' own readers fail (seeded I/O faults per clone) and every OTHER handle must be unaffected. (C) a compile-time probe asserts Send + Sync. Damage hits entry data or, one time in four, the local header; handles are clones or clones of clones.",
         note=TRUST + "Part B builds the crate through a shadow manifest with the guarded hook (private atomic alias -> shuttle's); parts A and C use the crate as shipped.",
         tech="deterministic simulation: seeded schedulers (own baton scheduler + shuttle random/PCT) over cloned-handle scripts"),
 }
